@@ -20,7 +20,7 @@ import (
 
 func init() { register("facts-source", factsSourceMain) }
 
-func recvName(fd *ast.FuncDecl) string {
+func c18RecvName(fd *ast.FuncDecl) string {
 	if fd.Recv == nil || len(fd.Recv.List) == 0 {
 		return ""
 	}
@@ -58,7 +58,7 @@ func factsSourceMain(args []string) error {
 		switch x := d.(type) {
 		case *ast.FuncDecl:
 			name := x.Name.Name
-			if r := recvName(x); r != "" {
+			if r := c18RecvName(x); r != "" {
 				name = r + "." + name
 			}
 			found[name] = show(x)
